@@ -153,3 +153,66 @@ func (ps *pathState) currentAtom(addr ssa.Value) Lin {
 	s := ps.tm.Of(addr).String()
 	return linAtom(fmt.Sprintf("%s@%d", s, ps.version[s]))
 }
+
+// linStatic evaluates an integer SSA value as a Lin without path knowledge:
+// field loads are atoms named by their address term, phis are opaque. inline
+// may expand calls (e.g. a getter) into a Lin.
+func linStatic(tm *Termer, v ssa.Value, inline func(*ssa.Call) (Lin, bool), depth int) Lin {
+	if depth > 30 {
+		return linAtom("?deep")
+	}
+	switch x := v.(type) {
+	case *ssa.Const:
+		if x.Value != nil && x.Value.Kind() == constant.Int {
+			n, _ := constant.Int64Val(x.Value)
+			return linConst(n)
+		}
+	case *ssa.BinOp:
+		switch x.Op {
+		case token.ADD:
+			return linStatic(tm, x.X, inline, depth+1).Add(linStatic(tm, x.Y, inline, depth+1), 1)
+		case token.SUB:
+			return linStatic(tm, x.X, inline, depth+1).Add(linStatic(tm, x.Y, inline, depth+1), -1)
+		}
+	case *ssa.Call:
+		if inline != nil {
+			if l, ok := inline(x); ok {
+				return l
+			}
+		}
+	case *ssa.Convert:
+		return linStatic(tm, x.X, inline, depth+1)
+	case *ssa.ChangeType:
+		return linStatic(tm, x.X, inline, depth+1)
+	}
+	return linAtom(tm.Of(v).String())
+}
+
+// ineqAsLin turns an integer comparison with the given outcome into "L >= 0".
+func ineqAsLin(op token.Token, a, b Lin, outcome bool) (Lin, bool) {
+	if !outcome {
+		switch op {
+		case token.GEQ:
+			op = token.LSS
+		case token.GTR:
+			op = token.LEQ
+		case token.LSS:
+			op = token.GEQ
+		case token.LEQ:
+			op = token.GTR
+		default:
+			return Lin{}, false
+		}
+	}
+	switch op {
+	case token.GEQ:
+		return a.Add(b, -1), true
+	case token.GTR:
+		return a.Add(b, -1).Add(linConst(1), -1), true
+	case token.LEQ:
+		return b.Add(a, -1), true
+	case token.LSS:
+		return b.Add(a, -1).Add(linConst(1), -1), true
+	}
+	return Lin{}, false
+}
